@@ -652,7 +652,7 @@ def run(ctx):
         blocks.append(("labelled targets <=4 x labelled patterns <=3 [get_substr_indices]", cat(T_lab, range(1, 5)), cat(P_lab, range(1, 4)), "Single", ("get_substr_indices",)))
         blocks.append(("class-representative targets <=5 x labelled patterns <=3 [get_substr_indices x2]", can_all_T, cat(P_lab, range(1, 4)), "Single", ("get_substr_indices", "ens.get_substr_indices")))
         blocks.append(("class-representative targets <=5 x class-representative patterns =4 [get_substr_indices x2]", can_all_T, P_can[4], "Single", ("get_substr_indices", "ens.get_substr_indices")))
-        blocks.append(("class-representative targets <=5 x class-representative patterns =4 [all three entry points, bonds=Double]", can_all_T, P_can[4], "Double", ("match", "get_substr_indices", "ens.get_substr_indices")))
+        blocks.append(("class-representative targets <=4 x class-representative patterns =4 [all three entry points, bonds=Double]", cat(T_can, range(1, 5)), P_can[4], "Double", ("match", "get_substr_indices", "ens.get_substr_indices")))
         dbl_T = can_all_T
     else:
         # the full labelled x labelled product costs ~1 ms per call (networkx conversion inside match): the quick tier keeps it up
